@@ -21,7 +21,7 @@ from permcorr import fake_cutoff, impl_cpt_labels, random_near
 from solvers import COMBOS, Prepared, solver_cells
 from tensors import same_span
 
-UNITS = ["BatchGen", "Tables", "EigStruct", "LogIndep", "ShapesRef", "ShapesSolvers", "ShapesPerm", "ShapesSumRule", "ShapesAuxBatch", "ShapesAuxPerm3", "SkelSolvers", "SkelMat", "SkelPerm", "ShapesBasis", "SkelBasis", "ShapesCoset", "SkelEig", "ShapesAuxEig", "SkelIdx"]
+UNITS = ["BatchGen", "Tables", "EigStruct", "LogIndep", "ShapesRef", "ShapesSolvers", "ShapesPerm", "ShapesSumRule", "ShapesAuxBatch", "ShapesAuxPerm3", "SkelSolvers", "SkelMat", "SkelPerm", "ShapesBasis", "SkelBasis", "ShapesCoset", "SkelEig", "ShapesAuxEig", "SkelIdx", "ShapesApi", "SkelApi"]
 PROPS = ["props/C11.v"]
 ASSUMPTIONS = ["floating-point non-associativity, BLAS threading and log level are outside any theorem (differential tests, 1e-8 relative)"]
 
@@ -175,6 +175,27 @@ def check(ctx):
                     ctx.count("reference-variant")
                     if not ok:
                         ctx.fail("oracle", f"C11/oracle/reference-projector/order{order}", f"{name} order {order} cutoff={'yes' if near is not None else 'no'}: span of c_pt differs from the unit eigenspace of projector_permutation_lat_trans_O{order} ({msg})", replay=rep, has_input=True)
+    # ---------------- the complete reference projector of order 3 on a 90-atom table (beyond every internal size threshold of the
+    # accumulation: > 2^24 stored entries), with and without log output, against c_pt c_pt^T (thorough tier, once per run)
+    if not ctx.quick and not getattr(ctx, "_bigref_done", False):
+        ctx._bigref_done = True
+        from gens import abelian_table as _abt
+        from symfc.utils.matrix_tools_O3 import projector_permutation_lat_trans_O3 as _ref3
+        from symfc.utils.permutation_tools_O3 import compr_permutation_lat_trans_O3 as _fast3
+        import contextlib as _cl, io as _io
+        tpb = np.asarray(_abt((6, 5, 3), 1, rng=rng), dtype="intc")
+        cfast = _fast3(tpb)
+        Pfast = (cfast @ cfast.T).tocsr()
+        for verbose in (False, True):
+            with _cl.redirect_stdout(_io.StringIO()):
+                Pref = _ref3(tpb, complete=True, verbose=verbose).tocsr()
+            dd = abs(Pref - Pfast)
+            dev = float(dd.max()) if dd.nnz else 0.0
+            ctx.case({"table": "Z6xZ5xZ3 (90 atoms)", "order": 3, "variant": "complete reference projector", "verbose": verbose}, nontrivial=True)
+            ctx.count("reference-variant-90-atoms")
+            if dev > 1e-9:
+                ctx.fail("oracle", "C11/oracle/reference-projector-large/order3", f"90-atom table (Z6 x Z5 x Z3, one orbit), verbose={verbose}: projector_permutation_lat_trans_O3(complete=True) differs from c_pt c_pt^T by {dev:.2e} "
+                         f"(traces {Pref.diagonal().sum():.1f} / {Pfast.diagonal().sum():.1f})", replay={"table": "abelian (6,5,3) x 1 orbit", "tp": tpb.tolist(), "order": 3, "verbose": verbose}, has_input=True)
     # ---------------- finite-displacement datasets (exact zeros, +/- pairs split over batches): batch-size independence
     import p_c13
     p_c13.sparse_relations(ctx, np.random.default_rng(ctx.seed + 42), prefix="C11/oracle/sparse-data")
